@@ -3,7 +3,7 @@
    PostgreSQL, Polars and the specification); each backend is tied to sem_gen <its flavour> by correspondence. *)
 From Coq Require Import List Bool String.
 Import ListNotations.
-From DA Require Import Base.PyRT Base.Val Model.Sem Proofs.SemBasicP.
+From DA Require Import Base.PyRT Base.Val Model.Sem Proofs.SemBasicP Model.PdPrim Model.PandasExec Proofs.PandasExecP1 Proofs.PandasExecP9 Props.PEXEC.
 
 (* every pipeline (any depth, any operator mix), every flavour, every environment: the result's columns are exactly the
    declared ones, in the declared order (so also after select_columns) *)
@@ -24,6 +24,17 @@ Theorem C08_defined_on_all_inputs :
   forall (fl : flavor) (p : op) (e : env), (forall n, In n (tables_of p) -> dict_get e n <> None) -> exists t, sem_gen fl p e = Some t.
 Proof. exact sem_defined. Qed.
 Print Assumptions C08_defined_on_all_inputs.
+
+(* The Pandas executor itself, TRANSCRIBED step by step (Model/PandasExec.v over hand models of the pandas primitives; Props/PEXEC.v):
+   for every sorting routine and every arrangement of inner-merge rows pandas may choose, every builder-accepted pipeline and every
+   input, a returned frame has exactly the declared columns and every row has that width: each scratch column the executor adds
+   (stand-ins, temp keys, suffixed right copies, the null-key marker) is removed again, and no declared column is lost. *)
+Theorem C08_pandas_executor_transcription_has_declared_columns :
+  forall (srt : sorter) (arr : arranger) (q : pquirks) (p : op) (e : env) (t : table),
+  sorter_ok srt -> arranger_ok arr -> wf_op_b p = true -> pexec_gen srt arr q p e = Some t ->
+  (forall c, In c (cols t) <-> In c (column_names p)) /\ width_ok t.
+Proof. exact PEXEC_no_scratch_column_survives. Qed.
+Print Assumptions C08_pandas_executor_transcription_has_declared_columns.
 
 Local Open Scope string_scope.
 Local Open Scope list_scope.
